@@ -256,7 +256,7 @@ class C03(Profile):
         grids = grid_recs([g for g in ALL_GRIDS if g != "detect"])
         robust = [r for r in grids if r.get("grid") == "robust"]
         others = [r for r in grids if r.get("grid") != "robust"]
-        sel = corp + robust + (others if th else pick(others, 400, rng))
+        sel = corp + robust + (others if th else pick(others, 250, rng))
         sel_ids = {r["id"] for r in sel}
 
         def add(rec: dict, text: str, tr: list[str], inn: Any, outp: Any, suffix: str, **extra: Any) -> None:
@@ -268,7 +268,7 @@ class C03(Profile):
             if th:
                 configs += [[t] for t in TRAITS] + [[]]
             elif rec in robust:
-                configs += [[t] for t in rng.sample(TRAITS, 4)] + [[]]
+                configs += [[t] for t in rng.sample(TRAITS, 2)] + [[]]
             else:
                 configs.append(own_traits(rec))
             configs += cases.trait_subsets(rng, 4 if th else 1)
